@@ -277,7 +277,7 @@ def _convert_to_stn(
     ai_to_start_node: Dict["plans.plan.ActionInstance", STNPlanNode] = {}
 
     # create a mockup durative action that contains the problem's timed_effects and conditions
-    mockup_action = DurativeAction("mockup_action")
+    mockup_action = DurativeAction("mockup_action", _env=problem.environment)
     for interval, cl in problem.timed_goals.items():
         start_timepoint = Timepoint(
             TimepointKind.START if interval.lower.is_from_start() else TimepointKind.END
@@ -504,6 +504,7 @@ def _extract_instantenous_actions(
         inst_action = InstantaneousAction(
             f"{action.name}_{i}",
             _parameters=OrderedDict(((p.name, p.type) for p in action.parameters)),
+            _env=action.environment,
         )
         for cond in _get_timepoint_conditions(action, timing, start, duration):
             inst_action.add_precondition(cond)
